@@ -1,6 +1,20 @@
 import difflib
+import re
 
 import libcst as cst
+
+_LINE_END = re.compile(r"(?<=\n)|(?<=\r)(?!\n)")
+
+
+def source_lines(text: str) -> list[str]:
+    """
+    Split source text into lines, line terminators kept.
+
+    Unlike `str.splitlines`, only `\n`, `\r\n` and `\r` end a line: a form feed
+    or a unicode line separator inside a line does not, so that line numbers
+    agree with those of editors, of libcst and of `patch`.
+    """
+    return [line for line in _LINE_END.split(text) if line]
 
 
 def create_diff(original_lines: list[str], new_lines: list[str]) -> str:
@@ -13,8 +27,8 @@ def create_diff_from_tree(original_tree: cst.Module, new_tree: cst.Module) -> st
     Create a diff between the original and output trees.
     """
     return create_diff(
-        original_tree.code.splitlines(keepends=True),
-        new_tree.code.splitlines(keepends=True),
+        source_lines(original_tree.code),
+        source_lines(new_tree.code),
     )
 
 
